@@ -18,6 +18,7 @@ open Sia.Codec Sia.Codec.Gen
 /-- Documented fields that are deliberately NOT transmitted. `missingFields` (generated: the
 declared struct fields of each codec type that no encoder label mentions) must be exactly this. -/
 def nonTransmitted : List (String × List String) := [
+  ("Consensus_State", ["Network"]),  -- network parameters are not encoded (struct comment)
   ("Rhp3_InstrReadRegistryNoVersion", ["Version"]),  -- pre-1.5.7 form: version implied (decoder sets 1)
   ("Rhp3_InstrUpdateRegistryNoType", ["EntryType"]),  -- pre-1.5.7 form: entry type implied (decoder sets arbitrary)
   ("Types_FileContractRevision.FileContract", ["Payout"]),  -- a revision cannot change the payout; decoder sets the sentinel
@@ -46,8 +47,6 @@ theorem tie_decoder_constants : decoderConstants = [
 
 /-- the codecs that are not regular are exactly the committed list (hand-modelled / oracle-only) -/
 theorem tie_irregular_list : irregularCodecs = [
-    "Consensus_ElementAccumulator",
-    "Consensus_State",
     "Gateway_V2BlockOutline",
     "Rhp2_RPCReadResponse",
     "Rhp2_loopKeyExchangeRequest",
@@ -65,7 +64,7 @@ theorem tie_irregular_list : irregularCodecs = [
   ] := rfl
 
 /-- number of regular codecs at the pinned commit (a removed codec shows up here) -/
-theorem tie_regular_count : allSchemas.length = 172 := by decide +kernel
+theorem tie_regular_count : allSchemas.length = 174 := by decide +kernel
 
 /-! ## the generic theorems instantiated: they apply to every generated schema -/
 
@@ -130,9 +129,13 @@ theorem tie_wire_Consensus_Work : encSchema_Consensus_Work = Spec.work := rfl
 theorem tie_wire_Consensus_V1StorageProofSupplement : encSchema_Consensus_V1StorageProofSupplement = Spec.v1StorageProofSupplement := rfl
 theorem tie_wire_Consensus_V1TransactionSupplement : encSchema_Consensus_V1TransactionSupplement = Spec.v1TransactionSupplement := rfl
 theorem tie_wire_Consensus_V1BlockSupplement : encSchema_Consensus_V1BlockSupplement = Spec.v1BlockSupplement := rfl
+theorem tie_wire_Consensus_ElementAccumulator : encSchema_Consensus_ElementAccumulator = Spec.elementAccumulator := rfl
+theorem tie_wire_Consensus_State : encSchema_Consensus_State = Spec.state := rfl
 
 /-! ## per type: encoder/decoder symmetry and field completeness -/
 
+theorem tie_symmetric_Consensus_ElementAccumulator : encSchema_Consensus_ElementAccumulator = decSchema_Consensus_ElementAccumulator := rfl
+theorem tie_symmetric_Consensus_State : encSchema_Consensus_State = decSchema_Consensus_State := rfl
 theorem tie_symmetric_Consensus_V1BlockSupplement : encSchema_Consensus_V1BlockSupplement = decSchema_Consensus_V1BlockSupplement := rfl
 theorem tie_symmetric_Consensus_V1StorageProofSupplement : encSchema_Consensus_V1StorageProofSupplement = decSchema_Consensus_V1StorageProofSupplement := rfl
 theorem tie_symmetric_Consensus_V1TransactionSupplement : encSchema_Consensus_V1TransactionSupplement = decSchema_Consensus_V1TransactionSupplement := rfl
@@ -306,6 +309,8 @@ theorem tie_symmetric_Types_V2SiafundInput : encSchema_Types_V2SiafundInput = de
 theorem tie_symmetric_Types_V2SiafundOutput : encSchema_Types_V2SiafundOutput = decSchema_Types_V2SiafundOutput := rfl
 theorem tie_symmetric_Types_V2StorageProof : encSchema_Types_V2StorageProof = decSchema_Types_V2StorageProof := rfl
 
+theorem tie_fields_complete_Consensus_ElementAccumulator : missing_Consensus_ElementAccumulator = [] := rfl
+theorem tie_fields_complete_Consensus_State : missing_Consensus_State = ["Network"] := rfl
 theorem tie_fields_complete_Consensus_V1BlockSupplement : missing_Consensus_V1BlockSupplement = [] := rfl
 theorem tie_fields_complete_Consensus_V1StorageProofSupplement : missing_Consensus_V1StorageProofSupplement = [] := rfl
 theorem tie_fields_complete_Consensus_V1TransactionSupplement : missing_Consensus_V1TransactionSupplement = [] := rfl
